@@ -108,14 +108,31 @@ impl ProcessState {
             dbfile.push("db.sqlite3");
             dbfile
         };
-        let must_create = !dbfile.exists();
-        vgate!("init_exists", "create": must_create);
+        vgate!("init_exists", "create": !dbfile.exists());
         let mut db: Connection;
         {
+            // Take the write lock at the start of the transaction: every start-up
+            // writes (a new run id, or the whole schema), and a deferred
+            // transaction that reads first fails at once with "database is
+            // locked" when another process has written in between, instead of
+            // waiting like everything else does.
+            db = connect(&e, &dbfile)
+                .map_err(|e| RedoError::new(format!("could not connect: {}", e)))?;
+            let tx = db
+                .transaction_with_behavior(TransactionBehavior::Immediate)
+                .map_err(RedoError::opaque_error)?;
+            // Whether the tables have to be created is decided under the lock:
+            // another first invocation may have created the file, or the
+            // tables, in the meantime.
+            let must_create = tx
+                .query_row(
+                    "select count(*) from sqlite_master where type='table' and name='Schema'",
+                    [],
+                    |row| row.get::<_, i32>(0),
+                )
+                .map_err(|e| RedoError::wrap(e, "schema check failed"))?
+                == 0;
             let tx = if !must_create {
-                db = connect(&e, &dbfile)
-                    .map_err(|e| RedoError::new(format!("could not connect: {}", e)))?;
-                let tx = db.transaction().map_err(RedoError::opaque_error)?;
                 let ver: Option<i32> = tx
                     .query_row("select version from Schema", [], |row| row.get(0))
                     .optional()
@@ -130,10 +147,6 @@ impl ProcessState {
                 }
                 tx
             } else {
-                helpers::unlink(&dbfile).map_err(RedoError::opaque_error)?;
-                db = connect(&e, &dbfile)
-                    .map_err(|e| RedoError::new(format!("could not connect: {}", e)))?;
-                let tx = db.transaction().map_err(RedoError::opaque_error)?;
                 tx.execute(
                     "create table Schema \
                         (version int)",
